@@ -1626,3 +1626,30 @@ val trace0 :
   sem -> sdesc list -> lstate list -> acc list -> (cell list * result) list
 
 val lazy_case : sdesc list -> acc list -> (cell list * result) list
+
+type oas_op = { op_method : bytes; op_responses : bytes list }
+
+type oas_item = { it_path : bytes; it_params : bytes list;
+                  it_ops : oas_op list }
+
+type oas = { oa_paths : oas_item list; oa_components : bytes list }
+
+val lower : n -> n
+
+val lower_bytes : bytes -> bytes
+
+val dedup : bytes list -> bytes list
+
+val response_keys : http_inter -> bytes list
+
+val op_of : http_inter -> oas_op
+
+val assign_op : oas_op list -> oas_op -> oas_op list
+
+val add_http : oas_item list -> http_inter -> oas_item list
+
+val fill_paths : inter list -> oas_item list
+
+val schema_name : bytes -> bytes
+
+val to_openapi : catalog -> oas
